@@ -161,9 +161,30 @@ def ob_kernel(ctx, cfg, n, name, k):
         if st != 'ok': return viol('%s/event' % name, 'Goldilocks::%s: path ends in %s: %s' % (name, st, res), replay=dict(kernel=name, event=str(res)))
     r = prove_with(ctx, paths, bc, goalf, pre, tmo)
     mode = 'compositional over ' + ','.join(sorted(set(bc.used)))
+    if r[0] == 'sat':
+        # counterexample at the contract level (callee outputs are only known up to congruence): keep it only if it reproduces
+        m = r[1]
+        Av = [[core.limbval(m, 'a%d_%d' % (j, i)) for i in range(n)] for j in range(3)]; Bv = [core.limbval(m, 'm%d' % t) for t in range(NB[k['kind']])]
+        res = confirm(ctx, cfg, n, name, k, Av, Bv, mode)
+        if res['status'] == 'violation': return res
+        r = ('pre', 'a representation-dependent step follows a contract-level value (contract-level counterexample does not reproduce)', None)
     if r[0] == 'pre':
         # a callee's documented operand assumption does not follow from the contracts of the values passed: decide bit-precisely, end to end
         lab = r[1]
+        # (a) specialised bit-precise runs: coefficient array fixed to simple concrete patterns (every product is then linear in the state),
+        #     state fully symbolic: cheap to decide and enough to expose a wrong representation assumption between the field kernels
+        pats = [('all coefficients 1', lambda t: 1), ('coefficients 1,0 alternating by row', lambda t: 1 if (t // 12 + t) % 2 == 0 else 0)]
+        if k['eight']: pats.append(('all coefficients 255', lambda t: 255))
+        else: pats.append(('all coefficients p-1', lambda t: P - 1))
+        for pname, pf in pats:
+            A3, _ = mk_inputs(k, n, limb=False); B3 = [pf(t) for t in range(NB[k['kind']])]; spec3 = spec_terms(k, A3, B3, n)
+            paths3 = run(ctx, cfg, n, name, k, A3, B3, hooks=None)
+            def goal3(tr, ret, outs): return [(l, cong(tr.val(tobv(out_term(outs, loc), 64)), sum(tr.val(x) * y for x, y in terms))) for l, loc, terms in spec3]
+            r3 = kern.prove_paths(ctx, paths3, goal3, timeout=min(tmo, 60))
+            if r3[0] == 'sat':
+                Av = [[r3[1].get('a%d_%d' % (j, i), 0) for i in range(n)] for j in range(3)]
+                res = confirm(ctx, cfg, n, name, k, Av, B3, 'bit-precise with %s (callee assumption "%s" not implied by contracts)' % (pname, lab))
+                if res['status'] == 'violation': return res
         A2, B2 = mk_inputs(k, n); spec2 = spec_terms(k, A2, B2, n)
         paths2 = run(ctx, cfg, n, name, k, A2, B2, hooks=None)
         def goal2(tr, ret, outs): return [(l, cong(tr.val(out_term(outs, loc)), sum(tr.prod(x, y)[0] for x, y in terms))) for l, loc, terms in spec2]
